@@ -617,4 +617,84 @@ Proof.
     + destruct (B _ _ _ H0 Hx) as [i' [j' [p' [Hj' [Ht' Hl']]]]]. exists i', j', p'. split; [exact Hj'|]. split; [|exact Hl'].
       rewrite nth_error_upd_other; [exact Ht'|]. intro; subst. congruence.
 Qed.
+
+(* a leave, abstractly: the member's identity disappears from the object; if that empties it
+   the endpoint goes and the table entry of that NAME is deleted *)
+Lemma leave_abs_inv : forall tab heap thr jt j gid p g g' tab',
+  Inv tab heap thr -> is_join jt j -> nth_error thr jt = Some (TMember gid p) -> nth_error heap gid = Some g ->
+  (forall x, In x (members k g') -> In x (members k g) /\ x <> lid_of k j jt) ->
+  (forall x, In x (members k g) -> x <> lid_of k j jt -> In x (members k g')) ->
+  NoDup (members k g') -> g_name g' = g_name g ->
+  ((members k g' <> [] /\ g_closed g' = g_closed g /\ g_ep g' = g_ep g /\ tab' = tab) \/
+   (members k g' = [] /\ g_ep g' = false /\ tab' = tab_del tab (g_name g))) ->
+  Inv tab' (upd heap gid g') (upd thr jt TLeft).
+Proof.
+  intros tab heap thr jt j gid p g g' tab' I Hj Ht Hg Hsub Hsup Hnd' Hname Hcase.
+  pose proof I as [K V TV L E M U ND B].
+  pose proof (nth_error_lt _ _ _ _ Hg) as Hlt.
+  destruct (M _ _ _ _ Hj Ht) as [g0 [Hg0 [Hlid Hnm]]]. assert (g0 = g) by congruence. subst g0.
+  assert (Hmne : members k g <> []) by (intro Hm; rewrite Hm in Hlid; exact Hlid).
+  pose proof (L _ _ Hg Hmne) as Hin.
+  destruct (TV _ _ Hin) as [g1 [Hg1 [Hcl Hor]]]. assert (g1 = g) by congruence. subst g1.
+  assert (Hthr : forall i' t, nth_error (upd thr jt TLeft) i' = Some t ->
+            (i' = jt /\ t = TLeft) \/ (i' <> jt /\ nth_error thr i' = Some t)).
+  { intros i' t H. apply upd_cases in H. exact H. }
+  assert (Hother : forall i' j' p', i' <> jt -> is_join i' j' -> nth_error thr i' = Some (TMember gid p') ->
+            In (lid_of k j' i') (members k g')).
+  { intros i' j' p' Hne Hj' Ht'. destruct (M _ _ _ _ Hj' Ht') as [g2 [Hg2 [Hl0 _]]]. assert (g2 = g) by congruence. subst g2.
+    apply Hsup; [exact Hl0|]. intro Heq. apply Hne. eapply U; eassumption. }
+  assert (HB : forall gid' g0 x, nth_error (upd heap gid g') gid' = Some g0 -> In x (members k g0) ->
+     exists i j p, is_join i j /\ nth_error (upd thr jt TLeft) i = Some (TMember gid' p) /\ lid_of k j i = x).
+  { intros gid' g0 x H0 Hx. apply upd_cases in H0. destruct H0 as [[-> ->]|[Hneg H0]].
+    - destruct (Hsub _ Hx) as [Hx1 Hx2]. destruct (B _ _ _ Hg Hx1) as [i' [j' [p' [Hj' [Ht' Hl']]]]].
+      exists i', j', p'. split; [exact Hj'|]. split; [|exact Hl'].
+      rewrite nth_error_upd_other; [exact Ht'|]. intro; subst i'. unfold is_join in Hj, Hj'. congruence.
+    - destruct (B _ _ _ H0 Hx) as [i' [j' [p' [Hj' [Ht' Hl']]]]].
+      exists i', j', p'. split; [exact Hj'|]. split; [|exact Hl'].
+      rewrite nth_error_upd_other; [exact Ht'|]. intro; subst i'. congruence. }
+  assert (HU : forall i i' j j' gid p p', is_join i j -> is_join i' j' ->
+     nth_error (upd thr jt TLeft) i = Some (TMember gid p) -> nth_error (upd thr jt TLeft) i' = Some (TMember gid p') ->
+     lid_of k j i = lid_of k j' i' -> i = i').
+  { intros i1 i2 j1 j2 gid' p1 p2 Hj1 Hj2 H1 H2 Hl.
+    apply Hthr in H1. apply Hthr in H2.
+    destruct H1 as [[_ H1]|[_ H1]]; [discriminate|]. destruct H2 as [[_ H2]|[_ H2]]; [discriminate|]. eauto. }
+  assert (HND : forall gid' g0, nth_error (upd heap gid g') gid' = Some g0 -> NoDup (members k g0)).
+  { intros gid' g0 H0. apply upd_cases in H0. destruct H0 as [[-> ->]|[_ H0]]; [exact Hnd'|eauto]. }
+  destruct Hcase as [[Hne' [Hcl' [Hep' ->]]]|[Hem' [Hep' ->]]].
+  - (* not the last member *)
+    constructor; auto.
+    + intros n gid' Hin'. destruct (TV _ _ Hin') as [g0 [H0 [H1 H2]]].
+      destruct (Nat.eq_dec gid gid') as [<-|Hneg].
+      * assert (g0 = g) by congruence. subst g0. exists g'. rewrite nth_error_upd_same by exact Hlt.
+        split; [reflexivity|]. split; [congruence|]. right. rewrite Hname. destruct H2 as [H2|H2]; [congruence|exact H2].
+      * exists g0. rewrite nth_error_upd_other by exact Hneg. tauto.
+    + intros gid' g0 H0 Hm. apply upd_cases in H0. destruct H0 as [[-> ->]|[_ H0]]; [rewrite Hname; exact Hin|eauto].
+    + intros gid' g0 H0. apply upd_cases in H0. destruct H0 as [[-> ->]|[_ H0]]; [|eauto].
+      rewrite Hep'. rewrite (E _ _ Hg). tauto.
+    + intros i' j' gid' p' Hj' Ht'. apply Hthr in Ht'. destruct Ht' as [[_ Ht']|[Hne Ht']]; [discriminate|].
+      destruct (M _ _ _ _ Hj' Ht') as [g0 [H0 [H1 H2]]].
+      destruct (Nat.eq_dec gid gid') as [<-|Hneg].
+      * assert (g0 = g) by congruence. subst g0. exists g'. rewrite nth_error_upd_same by exact Hlt.
+        split; [reflexivity|]. split; [eapply Hother; eassumption|congruence].
+      * exists g0. rewrite nth_error_upd_other by exact Hneg. tauto.
+  - (* the last member *)
+    constructor; auto.
+    + apply NoDup_map_filter. exact K.
+    + apply NoDup_map_filter. exact V.
+    + intros n gid' Hin'. apply In_tab_del in Hin'. destruct Hin' as [Hin' Hn]. simpl in Hn.
+      destruct (TV _ _ Hin') as [g0 [H0 H1]].
+      destruct (Nat.eq_dec gid gid') as [<-|Hneg].
+      * exfalso. apply Hn. eapply tab_vals_inj; eassumption.
+      * exists g0. rewrite nth_error_upd_other by exact Hneg. tauto.
+    + intros gid' g0 H0 Hm. apply upd_cases in H0. destruct H0 as [[-> ->]|[Hneg H0]]; [congruence|].
+      apply In_tab_del. split; [eauto|]. simpl. intro Heq. apply Hneg.
+      pose proof (L _ _ H0 Hm) as Hin0. rewrite Heq in Hin0. eapply tab_keys_inj; eassumption.
+    + intros gid' g0 H0. apply upd_cases in H0. destruct H0 as [[-> ->]|[_ H0]]; [|eauto].
+      rewrite Hep', Hem'. split; intro; congruence.
+    + intros i' j' gid' p' Hj' Ht'. apply Hthr in Ht'. destruct Ht' as [[_ Ht']|[Hne Ht']]; [discriminate|].
+      destruct (M _ _ _ _ Hj' Ht') as [g0 [H0 [H1 H2]]].
+      destruct (Nat.eq_dec gid gid') as [<-|Hneg].
+      * exfalso. pose proof (Hother _ _ _ Hne Hj' Ht') as Hx. rewrite Hem' in Hx. exact Hx.
+      * exists g0. rewrite nth_error_upd_other by exact Hneg. tauto.
+Qed.
 End Sched.
